@@ -21,7 +21,7 @@ type lockState struct {
 type lockInfo struct {
 	fn      *ssa.Function
 	at      map[ssa.Instruction]lockState // state *before* the instruction
-	issues  []string                       // pairing problems
+	issues  []string                      // pairing problems
 	nAcq    int
 	mutexOf func(c ssa.CallInstruction) *types.Var
 }
